@@ -104,6 +104,7 @@ def floors(tier):
         "elements_cut_short_at_once": 1,
         "typed_rows_sequences": 12 if q else 40,
         "carry_over_sequences": 12 if q else 40,
+        "sp_write_back_sequences": 12 if q else 40,
         "revisit_after_other": 50 if q else 700,
         "fresh_determinism_checked": 5,
         "set:models": 8 if q else 15,
@@ -530,6 +531,19 @@ def run_shard(spec, R):
             q_["key"] = digest([arch, None, q_["text"], q_["opts"]])
         check_sequence(W, gpool, [0, 1, 0, 2, 3, 2], R)
         R.count("carry_over_sequences")
+        # AArch64: a frame set up and torn down with write-back addressing through sp in one file, sp written as a plain register
+        # and read afterwards in the other (a72: the index write-back latency differs from the instruction latencies, so an sp
+        # that still carries the write-back mark of the other file shows in the CP / LCD columns)
+        a_arch = ["a72", "tx2", "n1", "a72"][spec["shard"] % 4]
+        frame_k = "\tstp\tx29, x30, [sp, #-16]!\n\tmov\tx29, sp\n\tldr\td0, [x0], #8\n\tfadd\td1, d1, d0\n\tldp\tx29, x30, [sp], #16\n"
+        plain_k = "\tsub\tsp, sp, #32\n\tstr\tx0, [sp, #8]\n\tadd\tx2, x2, x3\n\tldr\tx1, [sp, #8]\n\tadd\tx2, x2, x1\n\tadd\tsp, sp, #32\n"
+        apool = []
+        for text, classes in ((plain_k, ["reg", "load", "store"]), (frame_k, ["load-wb", "store"])):
+            req = {"isa": "aarch64", "opts": [], "text": text, "classes": classes, "kernel": None, "arch": a_arch}
+            req["key"] = digest([a_arch, None, text, []])
+            apool.append(req)
+        check_sequence(W, apool, [0, 1, 0, 1, 0], R)
+        R.count("sp_write_back_sequences")
         # fresh runs are deterministic themselves (otherwise the comparison means nothing)
         for req in rng.sample(pool, max(1, len(pool) // 10)):
             again = cli.run_sub(W.argv(req))
